@@ -712,7 +712,7 @@ def _seeded(run, lp, seed):
 @specfn('row2d')
 def _row2d(run, M, j):
     """row j of M as a (1, d) matrix:  M[j][np.newaxis, :]"""
-    return MatV(LC.row1(LC.mrow(M.term, intterm(j))))
+    return MatV(LC.row1(LC.mk_mrow(M.term, intterm(j))))
 
 
 @specfn('dists')
@@ -746,8 +746,7 @@ def _k_smallest(run, d, k):
 @specfn('ival')
 def _ival(run, s, j):
     """element j of an int sequence"""
-    from .lib import iat
-    return Num(iat(s.term, intterm(j)))
+    return Num(LC.mk_iat(s.term, intterm(j)))
 
 
 @specfn('vstack')
@@ -790,6 +789,8 @@ def _same_item(run, lst, j, v):
         return BoolV(e == PV.pv_arm(v.term))
     if isinstance(v, Ref) and isinstance(run.deref(v), MapO):
         m = run.deref(v)
+        if getattr(m, 'boxed', None) is not None:
+            return BoolV(e == m.boxed)
         return BoolV(e == PV.pv_dict(m.keys, m.cols['']))
     raise Unsupported('same_item with %r' % (v,))
 
@@ -820,3 +821,27 @@ def _n_true(run, m):
 @specfn('isum_of')
 def _isum_of(run, u):
     return Num(_la().isum(u.term))
+
+
+@specfn('draw_integers')
+def _draw_integers(run, s, hi, n):
+    return SeqV('I', LC.draw_int(_rs(s), intterm(hi), intterm(n)))
+
+
+@specfn('next_integers')
+def _next_integers(run, s, hi, n):
+    return OpaqueV(LC.next_int(_rs(s), intterm(hi), intterm(n)), 'rngstate')
+
+
+@specfn('is_list_result')
+def _is_list_result(run, v):
+    return BoolV(isinstance(v, Ref) and isinstance(run.deref(v), (SymListO, ListO)))
+
+
+@specfn('as_list')
+def _as_list(run, v):
+    """a result that is a list of per-row values, or the single per-row value as a one-element list"""
+    from .lib import box, ekind_of
+    if isinstance(v, Ref) and isinstance(run.deref(v), SymListO):
+        return v
+    return run.st.alloc(SymListO(z3.IntVal(1), z3.K(Int, box(run, v)), ekind_of(run, v)))
